@@ -423,21 +423,27 @@ def write_tmp(lines, tag):
     return p
 
 
-def run_impl(impl, cases, crashes, per_case_timeout=10):
-    """-> list of answer lines (None where the implementation crashed or hung); crashes: index -> stderr tail"""
+SKIPPED = '!skipped'
+
+
+def run_impl(impl, cases, crashes, per_case_timeout=10, max_failures=3):
+    """-> list of answer lines (None where the implementation crashed or hung); crashes: index -> what happened.
+    After max_failures crashes / hangs the remaining cases are not run (SKIPPED)."""
     out = [None] * len(cases)
     start = 0
     while start < len(cases):
+        if len(crashes) >= max_failures:
+            for i in range(start, len(cases)):
+                out[i] = SKIPPED
+            break
         p = write_tmp([case_line(c) for c in cases[start:]], 'impl')
-        rc, so, se = vlib.run2([impl, p], timeout=max(60, per_case_timeout + (len(cases) - start) // 200), env=ASAN)
+        rc, so, se = vlib.run2([impl, p], timeout=20 + (len(cases) - start) // 100, env=ASAN)
         os.remove(p)
         lines = [l for l in so.split('\n') if l.startswith(('W ', 'S ')) or l in ('W', 'S')]
         lines = [l if len(l) > 1 else l + ' ' for l in lines]
         n = min(len(lines), len(cases) - start)
         for i in range(n):
             out[start + i] = lines[i]
-        if rc == 0 and n == len(cases) - start:
-            break
         if n >= len(cases) - start:
             break
         bad = start + n
@@ -449,7 +455,7 @@ def run_impl(impl, cases, crashes, per_case_timeout=10):
         if rc1 == 0 and l1:
             out[bad] = l1[0] if len(l1[0]) > 1 else l1[0] + ' '
         else:
-            crashes[bad] = ('exit status %d: ' % rc1) + (se1 or se)[-900:]
+            crashes[bad] = crash_text(rc1, se1 or se)
         start = bad + 1
     return out
 
@@ -467,6 +473,14 @@ def one_impl(impl, c):
     return r[0], cr.get(0)
 
 
+def crash_text(rc, err):
+    if rc == 124:
+        return 'no answer within the time limit (the loop does not terminate)'
+    keep = [l.strip() for l in err.split('\n')
+            if re.search(r'ERROR: AddressSanitizer|runtime error|SUMMARY:|^\s*#[0-5] ', l)]
+    return 'exit status %d: %s' % (rc, ' | '.join(keep)[:900] if keep else err[-600:])
+
+
 # ------------------------------------------------------------------------------------------ shrinking
 
 def shrink_w(impl, names):
@@ -476,7 +490,8 @@ def shrink_w(impl, names):
     names = sorted(set(names))
     changed = True
     budget = 150
-    while changed and budget > 0:
+    t0 = time.time()
+    while changed and budget > 0 and time.time() - t0 < 45:
         changed = False
         for i in range(len(names)):
             cand = names[:i] + names[i + 1:]
@@ -505,7 +520,8 @@ def shrink_s(impl, tree):
         return judge_s(class_names(t), got) is not None
     changed = True
     budget = 150
-    while changed and budget > 0:
+    t0 = time.time()
+    while changed and budget > 0 and time.time() - t0 < 45:
         changed = False
         for s in subtrees(tree):
             budget -= 1
@@ -757,7 +773,7 @@ def run_round(ctx, impl, model, cases, stats, seen, samples, compile_n, label):
         mlines.append(case_line(c))
         if c.get('tree') is not None:
             mlines.append('T ' + ' '.join(tokens(c['tree'])))
-        if c['kind'] == 'W' and got[i] is not None:
+        if c['kind'] == 'W' and got[i] is not None and got[i] != SKIPPED:
             mlines.append('O ' + got[i][2:])
     mout = []
     if model:
@@ -774,6 +790,8 @@ def run_round(ctx, impl, model, cases, stats, seen, samples, compile_n, label):
         return l
     compile_pool = []
     for i, c in enumerate(cases):
+        if got[i] == SKIPPED:
+            break
         stats['evaluations'] += 1
         h = hashlib.sha1(case_line(c).encode()).hexdigest()
         if h not in seen:
@@ -802,10 +820,10 @@ def run_round(ctx, impl, model, cases, stats, seen, samples, compile_n, label):
                 small = shrink_w(impl, names) if impl else names
                 g2, cr2 = one_impl(impl, {'kind': 'W', 'names': small}) if impl else (None, None)
                 j2 = judge_w(small, g2) or j
-                ctx.violation('write_forward_declarations on {%s}: %s' % (' '.join(small), j2[0]),
+                ctx.violation('write_forward_declarations on {%s}: %s%s' % (' '.join(small), j2[0], (' -- ' + (cr2 or crashes.get(i))[:300]) if (cr2 or crashes.get(i)) else ''),
                               {'case': {'kind': 'W', 'names': small}, 'expected': j2[1], 'got': j2[2],
                                'sanitizer_or_exit': cr2 or crashes.get(i), 'found_in': c.get('src', label),
-                               'original_case': names, 'model': mW, 'replay_cmd': './check C19 --replay <this file>'})
+                               'original_case': names, 'model_on_original_case': mW, 'replay_cmd': './check C19 --replay <this file>'})
                 stats['oracle_failures'] += 1
             else:
                 if len(compile_pool) < compile_n and compilable(names) and names:
@@ -843,12 +861,12 @@ def run_round(ctx, impl, model, cases, stats, seen, samples, compile_n, label):
                     g2, cr2 = one_impl(impl, {'kind': 'S', 'description': desc})
                     j = judge_s(exp2, g2) or j
                     exp = exp2
-                ctx.violation('add_forward_declaration("%s"): %s' % (desc, j[0]),
+                ctx.violation('add_forward_declaration("%s"): %s%s' % (desc, j[0], (' -- ' + crashes[i][:300]) if crashes.get(i) else ''),
                               {'case': {'kind': 'S', 'description': desc, 'expected': sorted(set(exp or []))},
                                'expected': j[1], 'got': j[2], 'sanitizer_or_exit': crashes.get(i),
                                'found_in': c.get('src', label), 'original_case': c['description'],
                                'tree': ' '.join(tokens(small_tree)) if small_tree is not None else None,
-                               'model': mS, 'replay_cmd': './check C19 --replay <this file>'})
+                               'model_on_original_case': mS, 'replay_cmd': './check C19 --replay <this file>'})
                 stats['oracle_failures'] += 1
             if model and mout and got[i] is not None:
                 if exp is not None and j is None and mS != 'S ' + ' '.join(sorted(set(exp))):
@@ -967,7 +985,7 @@ def main():
             vc = [c for c in cs if c.get('valid')]
             cr = {}
             got = run_impl(impl, vc, cr)
-            if all(g is not None for g in got):
+            if all(g is not None and g != SKIPPED for g in got):
                 demangle_sample(ctx, impl, valid, [g[2:].split() for g in got], stats)
 
     if not ctx.violations:
